@@ -51,7 +51,7 @@ func vhC16Quote(v []byte) string {
 }
 
 //verif:mock (*github.com/XiaoMi/Gaea/proxy/server.SessionExecutor).handleQuery vhC16HandleQuery
-//verif:harness prop=C16 bounds="session with statement 1 'select ?, ?' and statement 2 'select ?'; every sequence of k=3 (quick) / 4 (thorough) commands from {execute(stmt 1: two string values of one symbolic letter or NULL, new-params-bound flag 1), execute without types (flag 0), execute truncated after the null bitmap / after the types, send_long_data(stmt 1, param 0|1, one symbolic letter), send_long_data(stmt 2), reset(stmt 1), execute(stmt 9 unknown)}; the backend answer to each executed query may be an error"
+//verif:harness prop=C16 maxpaths=4000000 timeout=2400 bounds="session with statement 1 'select ?, ?' and statement 2 'select ?'; every sequence of k=3 (quick) / 4 (thorough) commands from {execute(stmt 1: two string values of one symbolic letter or NULL, new-params-bound flag 1), execute without types (flag 0), execute truncated after the null bitmap / after the types, send_long_data(stmt 1, param 0|1, one symbolic letter), send_long_data(stmt 2), reset(stmt 1), execute(stmt 9 unknown)}; the backend answer to each executed query may be an error"
 func Harness_C16_CommandSequences() {
 	se := &SessionExecutor{stmts: map[uint32]*Stmt{}}
 	s1 := vhC16Prepare(se, 1, "select ?, ?")
